@@ -106,7 +106,15 @@ def run(tier, seed, broken_proof=False):
                                    "theorem_or_observable": "%s infers the query but %s does not (shipped base)" % (lo, hi)})
             mon_count += len(qtexts) * 7
         out["strata"]["shipped-bases"] = len(jobs[:60])
-    out["violations"] = out["violations"] + extra_viol[:20]
+    # the inclusions relate the implementation's answers to each other: a violated inclusion is the concrete violation; a mere
+    # disagreement with the model means the inclusion theorems no longer reach the code (reported only if no inclusion fails)
+    corr = []
+    for v in out["violations"]:
+        v = dict(v, found_by="none", kind="correspondence",
+                 theorem_or_observable="model answer != implementation answer (the inclusion theorems of props/C08.v transfer to the code only through this agreement): "
+                                       + str(v.get("theorem_or_observable", "")))
+        corr.append(v)
+    out["violations"] = extra_viol[:20] if extra_viol else corr[:8]
     out["strata"]["implication-monitor-evaluations"] = mon_count
     out["evaluations"] += mon_count
     return out
